@@ -41,14 +41,21 @@ func traverse(context Context, matchingNode *CandidateNode, operation *Operation
 	if matchingNode.Tag == "!!null" && operation.Value != "[]" && !context.DontAutoCreate {
 		log.Debugf("Guessing kind")
 		// we must have added this automatically, lets guess what it should be now
+		guessedKind := MappingNode
 		switch operation.Value.(type) {
 		case int, int64:
 			log.Debugf("probably an array")
-			matchingNode.Kind = SequenceNode
+			guessedKind = SequenceNode
 		default:
 			log.Debugf("probably a map")
-			matchingNode.Kind = MappingNode
 		}
+		if matchingNode.Kind != ScalarNode && matchingNode.Kind != guessedKind {
+			// a collection that carries the tag !!null (`!!null [1]`): it is null, so it
+			// does not bring its children along into the other kind of collection
+			// (a map with an odd number of children crashed every key/value walk)
+			matchingNode.Content = make([]*CandidateNode, 0)
+		}
+		matchingNode.Kind = guessedKind
 		matchingNode.Tag = ""
 	}
 
@@ -147,11 +154,16 @@ func traverseArrayIndices(context Context, matchingNode *CandidateNode, indicesT
 		}
 		// auto vivification
 		matchingNode.Tag = ""
-		matchingNode.Kind = SequenceNode
+		guessedKind := SequenceNode
 		//check that the indices are numeric, if not, then we should create an object
 		if len(indicesToTraverse) != 0 && indicesToTraverse[0].Tag != "!!int" {
-			matchingNode.Kind = MappingNode
+			guessedKind = MappingNode
 		}
+		if matchingNode.Kind != ScalarNode && matchingNode.Kind != guessedKind {
+			// a collection tagged !!null is null: see traverse()
+			matchingNode.Content = make([]*CandidateNode, 0)
+		}
+		matchingNode.Kind = guessedKind
 	}
 
 	if matchingNode.Kind == AliasNode {
